@@ -217,7 +217,7 @@ fn inflate(r: &mut Rng, w: &World, to: usize) -> Vec<u8> {
     }
     // C09 speaks of nodes whose members still fit a digest in one datagram: the node's own SYN is
     // 4 header bytes, the digest, and the length-prefixed cluster id
-    let cluster_len = w.cfg.cluster_ids[w.cfg.cluster_of[to]].len();
+    let cluster_len = w.cfg.cluster_ids[w.cluster_now[to]].len();
     let largest = codec::MAX_DATAGRAM - 4 - 2 - cluster_len;
     let target = (*r.pick(&[65_403usize, 65_404, 65_405, 65_450, 65_480, 65_499, 65_501])).min(largest);
     // an entry costs: 2 + id length, 8 generation, 7 IPv4 address, 24 for the three counters
@@ -239,7 +239,7 @@ fn inflate(r: &mut Rng, w: &World, to: usize) -> Vec<u8> {
         codec::put_u64(&mut b, 0);
         codec::put_u64(&mut b, 0);
     }
-    let cluster = w.cfg.cluster_ids[w.cfg.cluster_of[to]].clone();
+    let cluster = w.cfg.cluster_ids[w.cluster_now[to]].clone();
     codec::put_str(&mut b, &cluster);
     b
 }
